@@ -86,6 +86,19 @@ func c03Num[V univers.Version[V], VR univers.VersionRange[V]](e univers.Ecosyste
 	vv.Assert(sign(va.Compare(vb)) == numTupleCmp(a, b), "C03: numeric components do not order as integer tuples")
 }
 
+// c03NumIf: as c03Num for shapes the ecosystem may reject (github's date-shaped inputs with a
+// month above 12 or a day above 31): accepted pairs order as integer tuples.
+func c03NumIf[V univers.Version[V], VR univers.VersionRange[V]](e univers.Ecosystem[V, VR], a, b string) {
+	vv.Assume(runsOK(a))
+	vv.Assume(runsOK(b))
+	va, ea := e.NewVersion(a)
+	vv.Assume(ea == nil)
+	vb, eb := e.NewVersion(b)
+	vv.Assume(eb == nil)
+	vv.Reached()
+	vv.Assert(sign(va.Compare(vb)) == numTupleCmp(a, b), "C03: numeric components do not order as integer tuples")
+}
+
 // c03Mark: base+marker, if accepted, is strictly older (dir=-1) or newer (dir=+1) than base.
 func c03Mark[V univers.Version[V], VR univers.VersionRange[V]](e univers.Ecosystem[V, VR], base, marker string, dir int) {
 	vv.Assume(runsOK(base))
